@@ -87,7 +87,10 @@ func NewPlan(eng Engine, prop, tier string, base uint64, index int) *Plan {
 	p := &Plan{Engine: eng.Name(), Prop: prop, Tier: tier, Seed: seed, BaseSeed: base, Index: index, Generative: true}
 	p.MapSeed = g.U64() | 1
 	p.SwitchP = []float64{0.02, 0.1, 0.3, 0.7}[g.Intn(4)]
+	// Go map iteration inside Generate is seeded too (outside a run the runtime hook is off)
+	setMapRand(p.MapSeed | 1)
 	eng.Generate(p, g.Fork("gen"))
+	setMapRand(0)
 	if p.Sched == nil {
 		p.Sched = []int{}
 	}
